@@ -80,7 +80,7 @@ def b_answers(job):
 def b_models(job):
     """C03: get-model, get-value, get-assignment after each sat answer."""
     rng = random.Random(job["seed"])
-    g = G.Gen(rng, job["logic"])
+    g = G.Gen(rng, job["logic"], nnum=job.get("nnum", 3), box=job.get("box"))
     tb = g.tb
     # terms to evaluate: variables, applications, compound terms
     ts = []
@@ -106,6 +106,8 @@ def b_models(job):
     queries.append({"c": "get-assignment"})
     if job.get("mode") == "interface":
         body = G.interface_history(g, rng, queries=queries)
+    elif job.get("mode") == "sums":
+        body = G.sums_history(g, rng, queries=[q for q in queries if q["c"] != "get-assignment"])
     else:
         body = G.random_history(g, rng, n_assert=job.get("n_assert", 4), p_named=0.6, queries=queries, fdepth=2)
     cfg = job.get("cfg", "c0")
@@ -456,8 +458,16 @@ def farkas_system(g, rng):
     rows = []      # (coefs dict, const, weight)
     def block(local, nrows):
         blk = []
+        # two local variables that only occur together, with proportional coefficients (u + w, 2u + 2w, ...):
+        # the matrix of local columns has dependent rows, its rank is smaller than the number of local variables
+        pair = (local[0], local[1], rng.choice([1, 1, 2])) if len(local) >= 2 and rng.random() < 0.35 else None
         for _ in range(nrows):
             co = {v: rng.choice([-2, -1, 1, 1, 2]) for v in rng.sample(local, rng.randint(1, len(local)))}
+            if pair:
+                u_, w_, k_ = pair
+                if u_ in co or w_ in co:
+                    cu = co.get(u_, co.get(w_))
+                    co[u_] = cu; co[w_] = cu * k_
             for v in rng.sample(sh, rng.randint(1, min(2, len(sh)))):
                 co[v] = rng.choice([-2, -1, 1, 2])
             blk.append((co, rng.randint(-2, 2), rng.choice([1, 1, 2, 3])))
@@ -518,9 +528,10 @@ def b_itp(job):
         fam = C.Family(g)
         fam.add_run("s", cfg, "main", G.preamble(g, opts + _opts(cfg)) + out)
         return _result(fam, job)
-    g = G.Gen(rng, job["logic"], box=True)
+    # more symbols than the assertions need, so that some of them are local to one side of a split
+    g = G.Gen(rng, job["logic"], box=True, nbool=job.get("nbool", rng.choice([3, 3, 6])))
     body = unsat_biased_body(g, rng, n_named=job.get("n_named", 4), p_named=1.0, nested=False,
-                             histories=job.get("histories", True), n_atoms=job.get("n_atoms", 3))
+                             histories=job.get("histories", True), n_atoms=job.get("n_atoms", rng.choice([3, 3, 5])))
     # after every check-sat: interpolation requests over the names active there
     out = []
     mir = C.Mirror()
